@@ -3,7 +3,9 @@ package main
 import (
 	"encoding/json"
 	"fmt"
+	"math"
 	"net/url"
+	"sort"
 	"sync"
 
 	"github.com/google/jsonschema-go/jsonschema"
@@ -183,6 +185,21 @@ func runEval(hdr Header, c any, src string) CaseResult {
 				break
 			}
 		}
+		// the same JSON value spelled "-0" wherever the document has 0 (what encoding/json decodes to the
+		// float64 negative zero): zero has one JSON value, the verdict must not change
+		for _, lim := range []int{-1, 1} {
+			nz, changed := negZeros(inst, lim)
+			if !changed {
+				break
+			}
+			res.Evals++
+			if verr2 := rs.Validate(nz); (verr2 == nil) != want {
+				res.Failures = append(res.Failures, Failure{Kind: "verdict", Source: src, Abstract: c,
+					Concrete: map[string]any{"schema": u.concrete(), "instance": json.RawMessage(ij),
+						"spelling": map[int]string{-1: "every 0 written -0", 1: "the first 0 written -0"}[lim]},
+					Expected: map[string]any{"valid": want}, Got: errText(verr2)})
+			}
+		}
 		if len(sampleInst) < 4 {
 			sampleInst = append(sampleInst, map[string]any{"instance": json.RawMessage(ij), "valid": want})
 		}
@@ -234,4 +251,41 @@ func checkLoads(u *universe, log *loadLog, cm map[string]any, src string, c any)
 			Expected: map[string]any{"loader calls (as a set)": ws}, Got: log.calls}
 	}
 	return nil
+}
+
+// negZeros returns a copy of a decoded JSON value in which every number 0 (limit < 0) or only the
+// first `limit` zeros in document order are the float64 negative zero.
+func negZeros(v any, limit int) (any, bool) {
+	left := limit
+	var walk func(v any) (any, bool)
+	walk = func(v any) (any, bool) {
+		switch x := v.(type) {
+		case float64:
+			if x == 0 && !math.Signbit(x) && left != 0 {
+				left--
+				return math.Copysign(0, -1), true
+			}
+		case []any:
+			out, ch := make([]any, len(x)), false
+			for i, e := range x {
+				n, c := walk(e)
+				out[i], ch = n, ch || c
+			}
+			return out, ch
+		case map[string]any:
+			out, ch := make(map[string]any, len(x)), false
+			keys := make([]string, 0, len(x))
+			for k := range x {
+				keys = append(keys, k)
+			}
+			sort.Strings(keys)
+			for _, k := range keys {
+				n, c := walk(x[k])
+				out[k], ch = n, ch || c
+			}
+			return out, ch
+		}
+		return v, false
+	}
+	return walk(v)
 }
